@@ -194,6 +194,14 @@ func isBoolType(t types.Type) bool {
 	return ok && b.Info()&types.IsBoolean != 0
 }
 
+func isCtFlag(t types.Type) bool {
+	if a, isAlias := t.(*types.Alias); isAlias && a.Obj().Pkg() != nil && strings.HasSuffix(a.Obj().Pkg().Path(), "/pkg/base/ct") {
+		return true
+	}
+	n, ok := types.Unalias(t).(*types.Named)
+	return ok && n.Obj().Pkg() != nil && strings.HasSuffix(n.Obj().Pkg().Path(), "/pkg/base/ct") && (n.Obj().Name() == "Bool" || n.Obj().Name() == "Choice")
+}
+
 func constBool(info *types.Info, e ast.Expr) (val, ok bool) {
 	tv, has := info.Types[e]
 	if !has || tv.Value == nil || tv.Value.Kind() != constant.Bool {
@@ -251,6 +259,13 @@ func (u *Unit) classifyExits() {
 					}
 				case boolLast:
 					if v, ok := constBool(u.Info, last); ok && !v {
+						ex.Failure = true
+					} else {
+						ex.Output = true
+					}
+				case isCtFlag(lastT):
+					// constant-time ok flags: `return 0` / `return ct.False` is the failure exit
+					if tv, ok := u.Info.Types[last]; ok && tv.Value != nil && tv.Value.Kind() == constant.Int && constant.Sign(tv.Value) == 0 {
 						ex.Failure = true
 					} else {
 						ex.Output = true
